@@ -194,6 +194,10 @@ CURATED = [
     "def p(a: Qint[2]) -> Qint[2]:\n\tc = [3, 2, 1, 0]\n\tc = [1, 2]\n\treturn c[a]",
     "def p(a: Qint[2]) -> Qint[8]:\n\treturn Qint4(6) * Qint4(3) + a",
     "def p(a: Qint[2]) -> Qint[8]:\n\treturn a + Qint4(2) * 3",
+    # constant list-of-lists read with VARIABLE indices (non-square: more columns than rows, and the other way round)
+    "def p(i: Qint[2], j: Qint[2]) -> Qint[4]:\n\tc = [[1, 2, 3], [4, 5, 6]]\n\treturn c[i][j]",
+    "def p(i: Qint[2], j: Qint[2]) -> Qint[4]:\n\tc = [[1, 2], [3, 4], [5, 6]]\n\treturn c[i][j]",
+    "def p(i: Qint[2]) -> Qint[4]:\n\tc = [[1, 2, 3], [4, 5, 6]]\n\treturn c[1][i] + c[0][i]",
     # modulo: literal power of two, literal non-power (outside the subset), variable modulus
     "def p(a: Qint[4]) -> Qint[4]:\n\treturn a % 4",
     "def p(a: Qint[4]) -> Qint[4]:\n\treturn a % 3",
